@@ -682,6 +682,51 @@ def slice_get(eng, st, fr, args, fn, site):
     return ('agg', OPT, 'None', ())
 
 
+def byteorder_write(width, native=True):
+    """<E as byteorder::ByteOrder>::write_uN(buf, v): fills the first N bytes of the buffer with v (byte-swapped when E is
+    not the byte order of the analysed target, which is little-endian)"""
+    def f(eng, st, fr, args, fn, site):
+        d = ptr_term(args[0])
+        src = T('ne_bytes', args[1] if native else T('bswap', args[1], width), width)
+        if d[0] == 'ref':
+            old = eng.load(st, d[1])
+            n = bytes_len(old)
+            if n == width:
+                eng.write(st, d[1], src)
+                return C(None, '()')
+            if n is not None and n > width:
+                eng.write(st, d[1], T('splice', old, C(0, 'usize'), C(width, 'usize'), src))
+                return C(None, '()')
+            return None
+        if d[0] == 't' and d[1] == 'subslice' and d[2][0][0] == 'ref' and is_int_const(d[2][1]):
+            old = eng.load(st, d[2][0][1])
+            lo = d[2][1][1]
+            eng.write(st, d[2][0][1], T('splice', old, C(lo, 'usize'), C(lo + width, 'usize'), src))
+            return C(None, '()')
+        return None
+    return f
+
+
+def size_of_val(eng, st, fr, args, fn, site):
+    crate = fr.body.crate
+    targs = (fn or {}).get('targs') or []
+    if targs:
+        t = crate.types[targs[0]]
+        adt = crate.adts.get(t['s'])
+        if adt and 'size' in adt:
+            return C(int(adt['size']), 'usize')
+        if t.get('k') in ('int', 'uint'):
+            return C(t['bits'] // 8, 'usize')
+        if t.get('size'):
+            return C(int(t['size']), 'usize')
+        inner = t['s']
+        if inner.startswith('std::mem::MaybeUninit<') or inner.startswith('std::mem::maybe_uninit::MaybeUninit<'):
+            a2 = crate.adts.get(inner[inner.index('<') + 1:-1])
+            if a2 and 'size' in a2:
+                return C(int(a2['size']), 'usize')
+    return None
+
+
 def copy_from_slice(eng, st, fr, args, fn, site):
     d = ptr_term(args[0])
     src = deref(eng, st, ptr_term(args[1]))
@@ -732,6 +777,31 @@ def same_ptr(eng, st, fr, args, fn, site):
 
 
 SUMMARIES = {
+    'nix::sys::time::TimeValLike::zero': lambda e, s_, f, a, fn, site: T('ts_nanoseconds', C(0, 'i64')),
+    'std::num::<impl u64>::to_le_bytes': to_bytes(8),
+    'std::num::<impl u64>::to_be_bytes': lambda e, s_, f, a, fn, site: T('ne_bytes', T('bswap', a[0], 8), 8),
+    'std::num::<impl u32>::to_le_bytes': to_bytes(4),
+    'std::num::<impl u32>::to_be_bytes': lambda e, s_, f, a, fn, site: T('ne_bytes', T('bswap', a[0], 4), 4),
+    'std::num::<impl u16>::to_le_bytes': to_bytes(2),
+    'std::num::<impl u16>::to_be_bytes': lambda e, s_, f, a, fn, site: T('ne_bytes', T('bswap', a[0], 2), 2),
+    '<byteorder::LittleEndian as byteorder::ByteOrder>::write_u16': byteorder_write(2),
+    '<byteorder::LittleEndian as byteorder::ByteOrder>::write_u32': byteorder_write(4),
+    '<byteorder::LittleEndian as byteorder::ByteOrder>::write_u64': byteorder_write(8),
+    '<byteorder::LittleEndian as byteorder::ByteOrder>::write_i32': byteorder_write(4),
+    '<byteorder::LittleEndian as byteorder::ByteOrder>::write_i64': byteorder_write(8),
+    '<byteorder::BigEndian as byteorder::ByteOrder>::write_u16': byteorder_write(2, native=False),
+    '<byteorder::BigEndian as byteorder::ByteOrder>::write_u32': byteorder_write(4, native=False),
+    '<byteorder::BigEndian as byteorder::ByteOrder>::write_u64': byteorder_write(8, native=False),
+    '<byteorder::BigEndian as byteorder::ByteOrder>::write_i32': byteorder_write(4, native=False),
+    '<byteorder::BigEndian as byteorder::ByteOrder>::write_i64': byteorder_write(8, native=False),
+    'std::mem::size_of_val': size_of_val,
+    'nix::sys::time::TimeSpec::from_timespec': ts_from,
+    'nix::sys::time::TimeSpec::from_duration': lambda e, s, f, a, fn, site: T('ts_from_duration', a[0]),
+    '<nix::sys::time::TimeSpec as nix::sys::time::TimeValLike>::zero': lambda e, s, f, a, fn, site: T('ts_nanoseconds', C(0, 'i64')),
+    'nix::sys::time::TimeSpec::zero': lambda e, s, f, a, fn, site: T('ts_nanoseconds', C(0, 'i64')),
+    'std::time::Duration::new': lambda e, s, f, a, fn, site: T('dur_new', a[0], a[1]),
+    'std::time::Duration::from_nanos': un_val('dur_from_nanos'),
+    'std::time::Duration::from_micros': un_val('dur_from_micros'),
     'std::convert::num::<impl std::convert::TryFrom<isize> for usize>::try_from': int_try_from('isize', 'usize'),
     'std::convert::num::<impl std::convert::TryFrom<isize> for u64>::try_from': int_try_from('isize', 'u64'),
     'std::convert::num::<impl std::convert::TryFrom<isize> for u32>::try_from': int_try_from('isize', 'u32'),
